@@ -12,6 +12,15 @@ sides `+inf`/`-inf`, `prec > 0`).  Exact operations on values are `FV.add/mul/ne
 Each operator: the full-strength statement if it holds for the faithful model; otherwise a
 `…_counterexample` (concrete formats and members, proved) and the `…_partial` theorem with the
 excluded region as a hypothesis.
+
+State of the code modelled: after the repairs of F10 (`<=` tests the precision also when
+`other.exp = -inf`), F28 (`abs`: `pos_bound = max(pos_bound, -neg_bound)`) and F31 (a zero bound
+times an unbounded one is zero): `le_sound`, `abs_sound` hold at full strength and `mul_sound`
+needs no hypothesis on the bounds.  Still open — finding F29: `__neg__` copies `has_neg_zero` and
+`__mul__` takes the disjunction, although exactly `-(+0) = -0` and `(-2)·(+0) = -0`; hence
+`neg_sound_partial` / `mul_sound_partial` and their counterexamples.  The `legacy_…` theorems
+record what was wrong with the operators before the repairs (definitions `leLegacy`, `absLegacy`
+in the Spec file).
 -/
 import Fpy.Proof.AbsFmtMul
 import Fpy.Proof.AbsFmtMember
@@ -78,7 +87,7 @@ theorem union_sound (a b : AbsFmt) (ha : a.WF) (x : FV) (hx : γ a x ∨ γ b x)
     · exact union_fin_left a b p h
     · exact union_fin_right a b (wf_pos_ne_nan ha) p h
 
-/-! ### negation — false at the sign of zero -/
+/-! ### negation — false at the sign of zero (F29) -/
 
 /-- negation is sound except that `-(+0) = -0` needs `has_neg_zero`, which `__neg__` merely copies -/
 theorem neg_sound_partial (a : AbsFmt) (x : FV) (hx : γ a x)
@@ -101,49 +110,35 @@ theorem neg_sound_counterexample :
   · simp [γ, finMem]
   · simp [γ, finMem, FV.neg, RF.neg, AbsFmt.neg', sint8]
 
-/-! ### absolute value — false for asymmetric bounds -/
+/-! ### absolute value — full strength (since the repair of F28) -/
 
-/-- `abs` is sound for a member whose magnitude `pos_bound` covers (`__abs__` keeps `pos_bound` and
-ignores `neg_bound`) -/
-theorem abs_sound_partial (a : AbsFmt) (x : FV) (hx : γ a x)
-    (hsym : ∀ r, x = .fin r → r.c ≠ 0 → r.s = true → a.pos.above r.abs) : γ a.abs' x.abs := by
+/-- `x ∈ γ a → |x| ∈ γ (abs a)` -/
+theorem abs_sound (a : AbsFmt) (x : FV) (hx : γ a x) : γ a.abs' x.abs := by
   cases x with
   | nan s => exact hx
   | inf s =>
     cases s <;> simp only [FV.abs, FV.withSign, γ, AbsFmt.abs'] at hx ⊢ <;> simp [hx]
-  | fin p => exact abs_fin a p hx (hsym p rfl)
+  | fin p => exact abs_fin a p hx
 
-/-- … in particular for every format with symmetric bounds (`neg_bound = -pos_bound`, what the
-constructor builds by default) -/
-theorem abs_sound_symmetric (a : AbsFmt) (hs : a.pos = a.neg.neg) (x : FV) (hx : γ a x) : γ a.abs' x.abs := by
-  apply abs_sound_partial a x hx
-  intro r hr hc hsgn
-  subst hr
-  simp only [γ, finMem, hc, if_false] at hx
-  let g : Int := min r.exp (min a.pos.lvl a.neg.lvl)
-  have hgr : g ≤ r.exp := by omega
-  have hap := Bnd.okAt_of_le_lvl a.pos g (by omega)
-  have han := Bnd.okAt_of_le_lvl a.neg g (by omega)
-  rw [Bnd.above_iff a.pos r.abs g hap (Or.inr hgr), RF.abs_sc_of_neg r g hsgn, hs]
-  exact Bnd.neg_ub_of_lb _ _ _ ((Bnd.below_iff a.neg r g han (Or.inr hgr)).1 hx.2.1)
-
-/-- `-128 ∈ γ SINT8` but `|-128| = 128 ∉ γ (abs SINT8)` (`= A(inf, 0, +127, 0)`) -/
-theorem abs_sound_counterexample :
-    γ sint8 (.fin ⟨true, 0, 128⟩) ∧ ¬ γ sint8.abs' (FV.abs (.fin ⟨true, 0, 128⟩)) := by
-  constructor
-  · simp only [γ, finMem]
+/-- before F28: `-128 ∈ γ SINT8` but `|-128| = 128 ∉ γ (absLegacy SINT8)` (`= A(inf, 0, +127, 0)`) -/
+theorem legacy_abs_counterexample :
+    γ sint8 (.fin ⟨true, 0, 128⟩) ∧ ¬ γ sint8.absLegacy (FV.abs (.fin ⟨true, 0, 128⟩)) ∧
+      γ sint8.abs' (FV.abs (.fin ⟨true, 0, 128⟩)) := by
+  have hmem : γ sint8 (.fin ⟨true, 0, 128⟩) := by
+    simp only [γ, finMem]
     refine ⟨⟨⟨true, 0, 128⟩, by decide, rfl, nofun, fun E h => by cases h; decide⟩, by decide, by decide⟩
-  · simp only [γ, finMem, FV.abs, FV.withSign, AbsFmt.abs', sint8]
-    intro h
-    exact absurd h.2.2 (by decide)
+  refine ⟨hmem, ?_, abs_sound _ _ hmem⟩
+  simp only [γ, finMem, FV.abs, FV.withSign, AbsFmt.absLegacy, sint8]
+  intro h
+  exact absurd h.2.2 (by decide)
 
-/-! ### product — false at the sign of zero and when a zero bound meets an unbounded one -/
+/-! ### product — false at the sign of zero only (F29) -/
 
-/-- the product is sound provided (i) the computed bounds are not `nan` (`0 · inf` of a zero bound
-and an unbounded one — since repo commit 3d475f5) and (ii) a `-0` product is covered by
-`has_neg_zero` of an operand (`__mul__` sets `a.has_neg_zero or b.has_neg_zero`). -/
+/-- the product is sound provided a `-0` product is covered by `has_neg_zero` of an operand
+(`__mul__` sets `a.has_neg_zero or b.has_neg_zero`).  No hypothesis on the bounds is needed any
+more: a zero bound times an unbounded one is zero (F31). -/
 theorem mul_sound_partial (a b c : AbsFmt) (ha : a.WF) (hb : b.WF) (h : a.mul b = .ok c)
-    (hcp : c.pos ≠ .nan) (hcn : c.neg ≠ .nan) (x y : FV) (hx : γ a x) (hy : γ b y)
+    (x y : FV) (hx : γ a x) (hy : γ b y)
     (hz : ∀ p q, x = .fin p → y = .fin q → (p.mul q).c = 0 → (p.mul q).s = true → (a.negZero || b.negZero) = true) :
     γ c (x.mul y) := by
   obtain ⟨ps, po, _, _, hc⟩ := mul_eq_ok h
@@ -177,7 +172,12 @@ theorem mul_sound_partial (a b c : AbsFmt) (ha : a.WF) (hb : b.WF) (h : a.mul b 
         cases t <;> simp only [γ] at hy <;> simp [hy]
       apply hnar _ _ hio
       simp only [FV.mul]; split <;> rfl
-    | fin q => exact mul_fin a b c ha hb h hcp hcn p q hx hy (hz p q rfl rfl)
+    | fin q => exact mul_fin a b c ha hb h p q hx hy (hz p q rfl rfl)
+
+/-- … in particular at full strength as soon as one operand's number system has a negative zero -/
+theorem mul_sound_of_neg_zero (a b c : AbsFmt) (ha : a.WF) (hb : b.WF) (h : a.mul b = .ok c)
+    (hnz : (a.negZero || b.negZero) = true) (x y : FV) (hx : γ a x) (hy : γ b y) : γ c (x.mul y) :=
+  mul_sound_partial a b c ha hb h x y hx hy (fun _ _ _ _ _ _ => hnz)
 
 /-- `SINT8 * SINT8` is `A(16, 0, +16384, -16256)` without a negative zero, yet `(-2) · (+0) = -0` -/
 theorem mul_sound_counterexample_neg_zero :
@@ -189,49 +189,39 @@ theorem mul_sound_counterexample_neg_zero :
     refine ⟨⟨⟨true, 0, 2⟩, by decide, rfl, nofun, fun E h => by cases h; decide⟩, by decide, by decide⟩
   · simp [γ, finMem, FV.mul, RF.mul]
 
-/-- non-positive integers `≥ -2` times all integers: `pos_bound = max(0 · inf, …) = nan`, so no
-non-zero product is covered: `(-1) · (-1) = 1` -/
-theorem mul_sound_counterexample_nan_bound :
+/-- since F31: non-positive integers `≥ -2` times all integers is all integers (the zero bound
+times the unbounded one contributes zero, not `nan`), and `(-1) · (-1) = 1` is covered -/
+theorem mul_zero_bound_times_unbounded :
     ∃ c, (⟨none, some 0, .fin ⟨false, 0, 0⟩, .fin ⟨true, 0, 2⟩, false, false, false, false⟩ : AbsFmt).mul
-        ⟨none, some 0, .inf false, .inf true, false, false, false, false⟩ = .ok c ∧ c.pos = .nan ∧
-      ¬ γ c (FV.mul (.fin ⟨true, 0, 1⟩) (.fin ⟨true, 0, 1⟩)) := by
-  refine ⟨⟨none, some 0, .nan, .nan, false, false, false, false⟩, by rfl, by rfl, ?_⟩
-  simp only [γ, finMem, FV.mul, RF.mul]
-  intro h
-  exact absurd h.2.2 (by decide)
+        ⟨none, some 0, .inf false, .inf true, false, false, false, false⟩ = .ok c ∧
+      c.pos = .inf false ∧ c.neg = .inf true := by
+  exact ⟨⟨none, some 0, .inf false, .inf true, false, false, false, false⟩, by rfl, by rfl, by rfl⟩
 
-/-! ### inclusion test — candidate defect F10 -/
+/-! ### inclusion test — full strength (since the repair of F10) -/
 
-/-- The repaired test (`leRepaired`: enter the precision test whenever `other.prec` is finite)
-is sound at full strength. -/
-theorem le_repaired_sound (a b : AbsFmt) (hb : b.WF) (h : a.leRepaired b = true) (x : FV) (hx : γ a x) : γ b x := by
+/-- `a <= b = True → γ a ⊆ γ b` -/
+theorem le_sound (a b : AbsFmt) (hb : b.WF) (h : a.le b = true) (x : FV) (hx : γ a x) : γ b x := by
   cases x with
-  | fin p => exact leRepaired_fin a b hb h p hx
+  | fin p => exact le_fin a b hb h p hx
   | nan s =>
-    have := (leRepaired_unfold h).1
+    have := (le_unfold h).1
     simp only [γ] at hx ⊢
     unfold specialsContainedIn at this
     cases hbn : b.nan <;> simp [hx, hbn] at this ⊢
   | inf s =>
-    have := (leRepaired_unfold h).1
+    have := (le_unfold h).1
     unfold specialsContainedIn at this
     cases s <;> simp only [γ] at hx ⊢
     · cases hbn : b.posInf <;> simp [hx, hbn] at this ⊢
     · cases hbn : b.negInf <;> simp [hx, hbn] at this ⊢
 
-/-- `a <= b = True → γ a ⊆ γ b`, outside the region where the code skips the precision test:
-`other.exp = -inf` with `other.prec` finite and `self.prec > other.prec`. -/
-theorem le_sound_partial (a b : AbsFmt) (hb : b.WF) (h : a.le b = true)
-    (hF10 : b.exp = none → ∀ pb, b.prec = some pb → precGt a.prec (some pb) = false)
-    (x : FV) (hx : γ a x) : γ b x :=
-  le_repaired_sound a b hb (le_imp_leRepaired a b h hF10) x hx
-
-/-- F10, minimal: `A(2, 0, ±3) <= A(1, -inf, ±inf)` is `True` (that is `<= MPFloat(1)`'s format),
-`3 ∈ γ A(2,0,±3)`, but `3` has two significant digits. -/
-theorem le_sound_counterexample :
+/-- F10 before the repair, minimal: `A(2, 0, ±3) <= A(1, -inf, ±inf)` was `True` (that is
+`<= MPFloat(1)`'s format), `3 ∈ γ A(2,0,±3)`, but `3` has two significant digits.  Today's
+`<=` answers `False`. -/
+theorem legacy_le_counterexample :
     let a : AbsFmt := ⟨some 2, some 0, .fin ⟨false, 0, 3⟩, .fin ⟨true, 0, 3⟩, false, false, false, false⟩
     let b : AbsFmt := ⟨some 1, none, .inf false, .inf true, false, false, false, false⟩
-    a.le b = true ∧ a.WF ∧ b.WF ∧ γ a (.fin ⟨false, 0, 3⟩) ∧ ¬ γ b (.fin ⟨false, 0, 3⟩) ∧ a.leRepaired b = false := by
+    a.leLegacy b = true ∧ a.WF ∧ b.WF ∧ γ a (.fin ⟨false, 0, 3⟩) ∧ ¬ γ b (.fin ⟨false, 0, 3⟩) ∧ a.le b = false := by
   intro a b
   refine ⟨by decide, ⟨Or.inr ⟨_, rfl, Or.inr rfl⟩, Or.inr ⟨_, rfl, Or.inr rfl⟩, by decide⟩,
     ⟨Or.inl rfl, Or.inl rfl, by decide⟩, ?_, ?_, by decide⟩
@@ -252,13 +242,17 @@ theorem le_sound_counterexample :
       | zero => rw [hk] at hm; omega
       | succ k => rw [hk, Nat.pow_succ] at hm; omega
 
-/-- F10 as reported: the abstract format of FP32 is `<=` the one of `MPFloat(11)` -/
-theorem le_fp32_mpfloat11 :
+/-- F10 as reported: the abstract format of FP32 was `<=` the one of `MPFloat(11)`; it no longer is -/
+theorem legacy_le_fp32_mpfloat11 :
     let fp32 : AbsFmt := ⟨some 24, some (-149), .fin ⟨false, 104, 16777215⟩, .fin ⟨true, 104, 16777215⟩, true, true, true, true⟩
     let mp11 : AbsFmt := ofFormat (.mpFloat 11) true true true true
-    fp32.le mp11 = true ∧ fp32.leRepaired mp11 = false := by
+    fp32.leLegacy mp11 = true ∧ fp32.le mp11 = false := by
   decide
 
+/-- outside the region where it skipped the precision test the legacy `<=` was today's -/
+theorem legacy_le_agrees (a b : AbsFmt) (h : a.leLegacy b = true)
+    (hF10 : b.exp = none → ∀ pb, b.prec = some pb → precGt a.prec (some pb) = false) : a.le b = true :=
+  leLegacy_imp_le a b h hF10
 
 /-! ### identity of rounding (`round_is_identity(unrounded, ctx) = unrounded <= from_format(ctx.format())`) -/
 
@@ -268,31 +262,29 @@ theorem mpfloat_wf (p : Nat) (hp : 1 ≤ p) (pi ni nn nz : Bool) : (ofFormat (.m
   simp only [ofFormat, AbsFmt.sym]
   intro h; cases h; omega
 
-/-- **A rounding reported to be an identity changes no value** — for the target family on which
-F10 bites, `MPFloatContext(p)` (`exp = -inf`), finite non-zero members, any rounding mode, and
-outside the F10 region (`unrounded.prec ≤ p`): `RealFloat.round(max_p = p)` — which is what
-`MPFloatContext(p).round` applies to a finite non-zero operand — returns the same number with
-`inexact = False`.
+/-- **A rounding reported to be an identity changes no value** — for the target family
+`MPFloatContext(p)` (`exp = -inf`, where F10 bit), finite non-zero members, any rounding mode:
+`RealFloat.round(max_p = p)` — which is what `MPFloatContext(p).round` applies to a finite
+non-zero operand — returns the same number with `inexact = False`.
 Not covered (partial): other target families (their `round` adds range/subnormal handling — C01),
 zeros and special values (returned as they are by construction of `floatSpecial`). -/
 theorem round_identity_sound_partial (a : AbsFmt) (p : Nat) (hp : 1 ≤ p) (pi ni nn nz : Bool)
     (hle : a.le (ofFormat (.mpFloat p) pi ni nn nz) = true)
-    (hF10 : precGt a.prec (some p) = false)
     (x : RF) (hc : x.c ≠ 0) (hx : γ a (.fin x)) (rm : RM) :
     ∃ y fl, x.round (some p) none rm = .ok (y, fl) ∧ y.eqV x ∧ y.s = x.s ∧ fl.inexact = false := by
-  have hb := le_sound_partial a _ (mpfloat_wf p hp pi ni nn nz) hle
-    (fun _ pb hpb => by simp only [ofFormat, AbsFmt.sym] at hpb; cases hpb; exact hF10) (.fin x) hx
+  have hb := le_sound a _ (mpfloat_wf p hp pi ni nn nz) hle (.fin x) hx
   simp only [γ, finMem, hc, if_false] at hb
   apply round_of_writable x p hp hc rm
   obtain ⟨w, h1, h2, h3, h4⟩ := hb.1
   exact ⟨w, h1, h2, fun q hq => by cases hq; exact h3 p rfl, nofun⟩
 
-/-- F10 through `round_is_identity`: the FP32 abstract format is `<=` the one of `MPFloat(11)`,
-`1 + 2^-23` is an FP32 value, and rounding it to 11 digits gives `1` with `inexact = True`. -/
-theorem round_identity_counterexample :
+/-- F10 through `round_is_identity` before the repair: the FP32 abstract format was `<=` the one
+of `MPFloat(11)`, `1 + 2^-23` is an FP32 value, and rounding it to 11 digits gives `1` with
+`inexact = True`. -/
+theorem legacy_round_identity_counterexample :
     let fp32 : AbsFmt := ⟨some 24, some (-149), .fin ⟨false, 104, 16777215⟩, .fin ⟨true, 104, 16777215⟩, true, true, true, true⟩
     let x : RF := ⟨false, -23, 8388609⟩
-    fp32.le (ofFormat (.mpFloat 11) true true true true) = true ∧ γ fp32 (.fin x) ∧
+    fp32.leLegacy (ofFormat (.mpFloat 11) true true true true) = true ∧ γ fp32 (.fin x) ∧
       (x.round (some 11) none .rne).toOption = some (⟨false, -10, 1024⟩, { inexact := true }) ∧
       ¬ RF.eqV ⟨false, -10, 1024⟩ x := by
   intro fp32 x
